@@ -192,6 +192,17 @@ func pathTable(c *Ctx, ts tableSpec) ([]string, []string, token.Pos) {
 	}
 	// (paths are not merged here as the emission engine does: the effects shown in a decision table
 	// are texts of the statements, which do not carry every difference between two paths)
+	// … except the paths that end in an error: what the locals held no longer matters there, so two error exits
+	// doing the same under a test and its negation are one exit reached before that test
+	var errItems, rest []condBody
+	for _, it := range items {
+		if strings.HasSuffix(it.body, "err!") || strings.HasSuffix(it.body, "-> raise") {
+			errItems = append(errItems, it)
+		} else {
+			rest = append(rest, it)
+		}
+	}
+	items = append(rest, mergeComplementary(errItems)...)
 	var out []string
 	for _, it := range items {
 		out = append(out, "["+strings.Join(it.conds, " && ")+"] "+it.body)
